@@ -96,8 +96,16 @@ class Harness(cm.BaseB):
     def apply(self, fn, val, V, what):
         """call a transform on list and ndarray input; check shape preservation; return flat list"""
         res = None
-        for form in ("py", "np"):
-            arg = val if form == "py" else np.array(val)
+        forms = ("py", "np") if len(shape_of(val)) < 2 else ("py", "np", "npF", "npT")
+        for form in forms:
+            if form == "py":
+                arg = val
+            elif form == "np":
+                arg = np.array(val)
+            elif form == "npF":
+                arg = np.asfortranarray(np.array(val))  # column-major memory layout
+            else:
+                arg = np.array([list(col) for col in zip(*val)]).T  # transposed view of the transposed array
             try:
                 r = fn(arg)
             except Exception as e:
